@@ -42,6 +42,7 @@ func play(t *testing.T, sec string, cfg config, withFixture bool, calls ...call)
 			vs, class, nt := judge(r.cfg, pre, c, res, post, log, stateKey(pre) != stateKey(post))
 			hist = append(hist, c.String())
 			R.Eval(s, sec+"|"+r.cfg.String()+"|"+class, nt)
+			progress.Add(1)
 			R.Transitions(1)
 			if len(vs) > 0 {
 				report(vs, r.cfg, hist, c, pre, post, res, len(log))
